@@ -170,6 +170,9 @@ func (pf *Profile) genAction(t *rapid.T, fail bool, gateable bool, isCheck bool)
 			if pf.POverrun > 0 && pct(t, pf.POverrun, "overrunT") {
 				st.Out = Overrun
 				st.Wrap = uniform(t, 4, "lateness")
+				if pct(t, 50, "stubbornT") {
+					st.Wrap += 4
+				}
 			}
 			script = append(script, st)
 		}
@@ -195,6 +198,9 @@ func (pf *Profile) genAction(t *rapid.T, fail bool, gateable bool, isCheck bool)
 			st := pf.genStepFail(t)
 			if pf.POverrun > 0 && pct(t, pf.POverrun, "overrunF") {
 				st = Step{Out: Overrun, Wrap: uniform(t, 4, "lateness")}
+				if pct(t, 50, "stubbornF") {
+					st.Wrap += 4
+				}
 			}
 			script = append(script, st)
 		} else {
